@@ -44,7 +44,7 @@ PROPS = {
         "rule": "series: mixture of small-integer / uniform / wide-range / fitness-like values, ascending, descending or shuffled; non-trivial = non-empty and not ascending; "
                 "aggregates: non-trivial = at least 2 trials and 3 generations; distinct by (n, leading value, median) resp. (trials, generations, solved trials)",
         "assumptions": ["champions are non-nil (the record format has no presence marker and the library always sets one)", "fitness ties between champions admit any of the tied organisms"],
-        "expect_classes": {"concurrent": ["independent cases evaluated at the same time"], "series": ["empty series", "empty series that is not nil", "not ascending", "large common offset, small spread"], "aggregates": ["trial values that held another record before", "accessors called before the comparison", "experiment-level best organism located", "solved trial", "solved and unsolved trials", "trial without generations", "no trials"]},
+        "expect_classes": {"concurrent": ["independent cases evaluated at the same time"], "series": ["empty series", "empty series that is not nil", "not ascending", "large common offset, small spread"], "aggregates": ["trial values that held another record before", "accessors called before the comparison", "experiment-level best organism located", "solved trial", "solved and unsolved trials", "trial without generations", "no trials", "generations sorted in place between the two passes", "record read into an experiment that held other winners and was asked about them"]},
     },
     "C06": {
         "run": "^TestC06",
@@ -56,7 +56,7 @@ PROPS = {
         "level_note": "trusted: the harness's snapshot/diff (M2) and Build, which round-trip each other on every case; structural mutators are applied to non-modular genomes only",
         "rule": "G-direct genomes (1-5 inputs, 0-2 bias, 1-3 outputs, 0-8 hidden, 1-20 genes, 0-2 modules); non-trivial = genome with a disabled gene, a module or a nil trait; distinct by (#nodes, #genes, #modules, #disabled, #recurrent, #nil traits)",
         "assumptions": ["trait ids are consecutive and >= 1 (0 is the file syntax for 'no trait')", "a panic inside a mutator is attributed to C01/C05, not to C06"],
-        "expect_classes": {"dup": ["disabled gene", "recurrent gene", "nil trait", "modular", "disabled module"], "spawn": ["start genome with disabled genes", "modular start genome"],
+        "expect_classes": {"dup": ["disabled gene", "recurrent gene", "nil trait", "modular", "disabled module", "module link that carries a trait"], "spawn": ["start genome with disabled genes", "modular start genome"],
                            "history": ["op:duplicate", "disabled gene", "recurrent gene"]},
     },
     "C04": {
@@ -97,7 +97,7 @@ PROPS = {
         "rule": "G-net DAGs: 1-4 inputs, 0-3 bias, 0-8 hidden, 1-3 outputs, random topological order independent of ids, extra-link probability 0-0.6, weights in [-5,5] with occasional +-100; built from constructors or through Genesis; "
                 "non-trivial = a bias link moves an output by > 1e-6 and depth >= 2; distinct by (#in, #bias, #hidden, #out, #links, depth)",
         "assumptions": ["every neuron is reachable from a sensor and each ordered pair carries at most one link (as in every feed-forward genome)", "relaxation is run with the smallest positive delta and a budget of #neurons+2 steps; only the value, not the relaxed flag, is asserted"],
-        "expect_classes": {"concurrent": ["independent cases evaluated at the same time"], "dag": ["bias link moves an output by more than 1e-6", "weights rewritten in place after a solver was derived", "explicit bias values loaded before the evaluation", "flushed between the two vectors", "more than 128 neurons", "several bias nodes", "depth >= 3", "network expressed from a genome", "network built from constructors", "second input vector on the same instances", "output list in another order than the node list"]},
+        "expect_classes": {"concurrent": ["independent cases evaluated at the same time"], "dag": ["bias link moves an output by more than 1e-6", "weights rewritten in place after a solver was derived", "explicit bias values loaded before the evaluation", "flushed between the two vectors", "more than 128 neurons", "several bias nodes", "depth >= 3", "network expressed from a genome", "network built from constructors", "second input vector on the same instances", "output list in another order than the node list", "second vector evaluated by another way of activation"]},
     },
     "C13": {
         "run": "^TestC13",
@@ -241,7 +241,7 @@ PROPS = {
         "level_note": "trusted: the arithmetic model (bounds, not a re-implementation of the carry loop); the per-species adjustment factor is only required to be a product of the documented penalty 0.01 and the age significance, divided by the species size - the ages at which they apply are not asserted",
         "rule": "G-epochs scenarios (fitness programs with positive values, DropOffAge 1-8, babies stolen 0..PopSize/2, population 4-40), 0-19 ordinary epochs, then the terminal step; non-trivial = at least two species with different sizes or ages; distinct by (step, generation, #species, #sizes, #ages, size, stolen)",
         "assumptions": ["at least one positive fitness value (cases without are skipped and counted)", "sequential executor phases"],
-        "expect_classes": {"stepwise": ["terminal step A", "terminal step B", "terminal step C", "several species", "stagnation penalty active", "youth boost active", "species purged for a zero quota", "species that loses members before reproduction", "survival threshold keeps the whole species", "species with a zero quota did not reproduce", "babies stolen configured"]},
+        "expect_classes": {"stepwise": ["terminal step A", "terminal step B", "terminal step C", "several species", "stagnation penalty active", "youth boost active", "species purged for a zero quota", "species that loses members before reproduction", "survival threshold keeps the whole species", "species with a zero quota did not reproduce", "babies stolen configured", "organism with a negative raw fitness", "turnover repeated after a cancelled attempt and a new evaluation", "mean adjusted fitness below 2^-900 (quotients formed from scaled values)"]},
     },
     "C16": {
         "run": "^TestC16",
